@@ -15,8 +15,11 @@ func Shoelace(pts [][2]float64) float64 {
 		return 0.
 	}
 
-	p0 := pts[len(pts)-1]
-	for _, p1 := range pts {
+	// relative to the first point, otherwise a small ring far from the origin drowns in the rounding of the products
+	origin := pts[0]
+	p0 := [2]float64{pts[len(pts)-1][0] - origin[0], pts[len(pts)-1][1] - origin[1]}
+	for _, pt := range pts {
+		p1 := [2]float64{pt[0] - origin[0], pt[1] - origin[1]}
 		sum += p0[1]*p1[0] - p0[0]*p1[1]
 		p0 = p1
 	}
